@@ -152,6 +152,13 @@ def run(rep, tier):
     _methods(rep, Ctx(rep, "cranelift"), ra, rb, rd, tag="[cranelift]")
     _compile_rules(rep, cx)
     _compile_rules(rep, Ctx(rep, "cranelift"), tag="[cranelift]")
+    # R10.i: what the wrappers themselves write into the fixed metadata buffer is rewritten on every execution,
+    # so nothing of an earlier execution (other than bytes a program stored) is visible to the next one
+    ri = rep.rule("R10.i", "fixed-mbuff executions rewrite both pointer slots on every path that runs the program (no wrapper-written state survives from an earlier execution)", floor=2)
+    from props.c09 import _pointer_stores
+    for cfgname, path in (("std", "EbpfVmFixedMbuff::execute_program"), ("cranelift", "EbpfVmFixedMbuff::execute_program_cranelift")):
+        found, good = _pointer_stores(Ctx(rep, cfgname).F, path)
+        rep.ob(ri, path, good, "%s: pointer slots" % path, expected="both slots written on every running path", found=found)
 
     # R10.c who may write prog / verifier
     rc = rep.rule("R10.c", "only new / set_program / set_verifier write the program and verifier fields", floor=2)
